@@ -27,6 +27,7 @@ type Ctx struct {
 	rootedSet      map[*ssa.Function]bool
 	hold           *holderTypes
 	wparams        map[*ssa.Function]map[int]bool
+	transient      map[*types.Named]bool
 	denomOrd       map[string]int
 	maccVar        string
 	claimStepsDone bool
